@@ -48,7 +48,8 @@ def content (khLoads v : String) : Option KhContent :=
   else (verdict v).map .holds
 
 /-- the 14 fields of one connection:
-`host port user pw timeoutNs strict key kh khLoads(1|0|missing) keyLoads verdict accKey accPw accKbd` -/
+`host port user pw timeoutNs strict key kh khLoads(1|0|missing) keyLoads verdict accKey accPw accKbd`
+(`accKbd = multi`: the two-step server policy key-then-password with `accKey`, `accPw`) -/
 def parseConn : List String → Option Conn
   | [host, port, user, pw, tmo, strict, key, kh, khLoads, keyLoads, v, accKey, accPw, accKbd] =>
     match fromHex host, port.toInt?, fromHex user, fromHex pw, tmo.toInt?, fromHex key, fromHex kh, content khLoads v with
@@ -56,6 +57,7 @@ def parseConn : List String → Option Conn
       some { a := { host := host, port := port, user := user, password := pw, timeoutNs := tmo },
              s := { strictKey := s2b strict, privateKeyPath := key, knownHostsFile := kh },
              kh := cont, keyLoads := s2b keyLoads,
+             multi := if accKbd == "multi" then some (s2b accKey, s2b accPw) else none,
              accepts := fun
                | .publicKey _ => s2b accKey
                | .password _ => s2b accPw
@@ -64,8 +66,8 @@ def parseConn : List String → Option Conn
   | _ => none
 
 def showConn (c : Conn) : String :=
-  let out := showOutcome (standardConn c)
-  let att := showAuth (standardConnAttempts c)
+  let out := showOutcome (standardConnP c).1
+  let att := showAuth (standardConnP c).2
   match standardCfg c.a c.s c.kh.loads c.keyLoads with
   | .error e => s!"err {showErr e} {out} {att}"
   | .ok cfg => s!"ok {toHex cfg.addr} {toHex cfg.user} {showPolicy cfg.policy} {showAuth cfg.auth} {out} {att}"
